@@ -89,14 +89,7 @@ Inductive boundary : list N -> nat -> Prop :=
 
 (* the bytes are valid UTF-8: no iteration of the range loop yields a decoding error
    (a genuine U+FFFD, encoded EF BF BD, has size 3 and is fine) *)
-Fixpoint valid_utf8_from (s : list N) (skip : nat) : bool :=
-  match s with
-  | [] => Nat.eqb skip 0
-  | _ :: rest =>
-    match skip with
-    | S k => valid_utf8_from rest k
-    | O => let '(r, sz) := decode_rune s in
-           negb ((r =? rune_error) && Nat.eqb sz 1) && valid_utf8_from rest (sz - 1)
-    end
-  end.
-Definition valid_utf8 (s : list N) : bool := valid_utf8_from s 0.
+Inductive valid_utf8 : list N -> Prop :=
+| valid_nil : valid_utf8 []
+| valid_step s : s <> [] -> ~ (fst (decode_rune s) = rune_error /\ rune_size s = 1%nat) ->
+                 valid_utf8 (skipn (rune_size s) s) -> valid_utf8 s.
